@@ -199,8 +199,22 @@ impl AsyncWrite for File {
         let pos = if me.append { None } else { Some(me.pos) };
         let v = data.to_vec();
         let mut op: WriteOp = AsyncOp::new(OpKind::Write, true, |_| true, move |st, rec| {
+            // tokio's background job is `write_all`: a short write is completed there
             let pid = rec.pid;
-            st.sys_write(pid, ofd, pos, &v, rec)
+            let mut off = 0usize;
+            let mut at = pos;
+            loop {
+                let (n, np) = st.sys_write(pid, ofd, at, &v[off..], rec)?;
+                off += n;
+                if off >= v.len() {
+                    rec.bytes = v.len() as u64;
+                    return Ok((v.len(), np));
+                }
+                if n == 0 {
+                    return Err(io::Error::new(io::ErrorKind::WriteZero, "failed to write whole buffer"));
+                }
+                at = at.map(|_| np);
+            }
         });
         match op.poll_op(cx) {
             Poll::Pending => {
